@@ -24,9 +24,7 @@ func init() {
 			}
 			return 1600
 		},
-		Rule: "case = one generated tree with lengths; sub-executions: Reroot at every inner node (sampled above 60 tips), RerootOutGroup over " +
-			"clades/complements/non-clades/absent names (alone: nothing may be removed) x strict x remove, RerootMidPoint, UnRoot, RotateInternalNodes, SortNeighborsByTips; " +
-			"non-trivial = tree has >= 2 inner branches and at least one outgroup rooting on a split side succeeded; distinct by start text",
+		Rule: "case = one generated tree with lengths; sub-executions: Reroot at every inner node (sampled above 60 tips), RerootOutGroup over clades/complements/non-clades/absent names (alone: nothing may be removed) x strict x remove, RerootMidPoint, UnRoot, the reroot / unroot / rotate commands on files of several trees (outgroup given as arguments or in a tip file of any accepted layout), RotateInternalNodes, SortNeighborsByTips; non-trivial = tree has >= 2 inner branches and at least one outgroup rooting on a split side succeeded; distinct by start text",
 		Assumptions: []string{
 			"lengths in [1e-6,1e3] plus zeros and exact ties; path sums compared to 1e-9 relative (re-association), halves of the cut branch bitwise",
 			"negative branch lengths are not generated here: 'cut into two equal halves' and 'halfway along a longest path' are stated for lengths >= 0 (merging of branches in series with negative lengths is covered by C06 and C15)",
